@@ -1,9 +1,11 @@
 package namer
 
 import (
+	"go/token"
 	"slices"
 	"strconv"
 	"strings"
+	"unicode"
 
 	"github.com/octohelm/gengo/pkg/camelcase"
 	gengotypes "github.com/octohelm/gengo/pkg/types"
@@ -43,19 +45,48 @@ func (tracker *defaultImportTracker) add(path string) {
 
 	parts := strings.Split(path, "/")
 
-	for i := range len(parts) {
-		localName := golangTrackerLocalName(parts, i+1)
+	// try to bind localName, which must be a usable identifier that is still free
+	bind := func(localName string) bool {
+		if !token.IsIdentifier(localName) {
+			return false
+		}
 
 		if tracker.checkStd {
 			if p, ok := std.nameToPath[localName]; ok && p != path {
-				continue
+				return false
 			}
 		}
 
-		if _, ok := tracker.nameToPath[localName]; !ok {
-			tracker.nameToPath[localName] = path
-			tracker.pathToName[path] = localName
-			break
+		if _, ok := tracker.nameToPath[localName]; ok {
+			return false
+		}
+
+		tracker.nameToPath[localName] = path
+		tracker.pathToName[path] = localName
+		return true
+	}
+
+	for i := range len(parts) {
+		if bind(golangTrackerLocalName(parts, i+1)) {
+			return
+		}
+	}
+
+	// every candidate is taken, reserved or not an identifier: number a sanitized one until free
+	base := strings.Map(func(r rune) rune {
+		if r == '_' || unicode.IsLetter(r) || unicode.IsDigit(r) {
+			return r
+		}
+		return -1
+	}, golangTrackerLocalName(parts, len(parts)))
+
+	if base == "" || unicode.IsDigit(rune(base[0])) {
+		base = "pkg" + base
+	}
+
+	for i := 1; ; i++ {
+		if bind(base + strconv.Itoa(i)) {
+			return
 		}
 	}
 }
